@@ -527,7 +527,7 @@ func streamTruth(seed uint64, idx int) caseT {
 	if form == 2 && idx%3 == 0 {
 		// the same comparison with a FIELD on the left, over elements most of which are not objects
 		doc["mix"] = []interface{}{u1, map[string]interface{}{"a": u1}, nil, 1.0, "s", []interface{}{u1}, map[string]interface{}{"b": u1}, true}
-		e = "[mix[?a " + op + " " + literalTok(u2) + "], mix[*].(a " + op + " " + literalTok(u2) + "), mix[?" + literalTok(u2) + " " + op + " a]]"
+		e = "[mix[?a " + op + " " + literalTok(u2) + "], mix[*].[a " + op + " " + literalTok(u2) + "], mix[?" + literalTok(u2) + " " + op + " a]]"
 	}
 	return caseT{lines: []string{"S " + hexField(e) + " " + canonOf(doc)}}
 }
